@@ -1014,9 +1014,17 @@ class Verifier(Engine):
         short = dotted.split(".")[-1]
         if short in NOOP_FUNCS:
             return NONE_V
-        con = self.reg.contract_for("ext", dotted)
+        # overloads: "name(kind1,kind2)" is tried before "name"
+        def kind_of(a):
+            if isinstance(a, V):
+                if a.ty.kind in ("val", "ref", "enum"):
+                    return a.ty.args[0]
+                return a.ty.kind
+            return "*" if isinstance(a, tuple) else "py"
+        sig = "%s(%s)" % (dotted, ",".join(kind_of(a) for a in args))
+        con = self.reg.contract_for("ext", sig) or self.reg.contract_for("ext", dotted)
         if con is None:
-            raise Unsupported("no model / contract for external call %s" % dotted)
+            raise Unsupported("no model / contract for external call %s" % sig)
         return self.apply_contract(con, selfv, args, kwargs)
 
     def construct(self, p, args, kwargs):
